@@ -142,11 +142,24 @@ fn yes() -> bool {
 
 // ---------------------------------------------------------------- real objects
 
+/// numbers are opaque labels in the model (Z); a label is the integer itself except for three
+/// labels that stand for doubles an integer cannot name: negative zero and +-1e-10
+const L_NEG_ZERO: i64 = -1000001;
+const L_TINY: i64 = 1000002;
+const L_NEG_TINY: i64 = -1000002;
+fn number_of(label: i64) -> f64 {
+    match label {
+        L_NEG_ZERO => -0.0,
+        L_TINY => 1e-10,
+        L_NEG_TINY => -1e-10,
+        k => k as f64,
+    }
+}
 fn edge_traversal(t: &Trav) -> EdgeTraversal {
     EdgeTraversal {
         edge_id: EdgeId(t.e),
-        access_cost: Cost::new(t.a as f64),
-        traversal_cost: Cost::new(t.t as f64),
+        access_cost: Cost::new(number_of(t.a)),
+        traversal_cost: Cost::new(number_of(t.t)),
         result_state: t.s.iter().map(|v| StateVar(*v as f64)).collect(),
     }
 }
@@ -309,6 +322,9 @@ fn grid(x: f64) -> String {
 }
 fn int(v: &Value) -> String {
     match v.as_f64() {
+        Some(x) if x == 0.0 && x.is_sign_negative() => format!("{}", L_NEG_ZERO),
+        Some(x) if x == 1e-10 => format!("{}", L_TINY),
+        Some(x) if x == -1e-10 => format!("{}", L_NEG_TINY),
         Some(x) if x.fract() == 0.0 && x.abs() < 1e15 => format!("{}", x as i64),
         _ => format!("?{}", v),
     }
@@ -444,6 +460,34 @@ fn show_tree_out(f: Fmt, v: &Value) -> String {
         },
     })();
     r.unwrap_or_else(|e| format!("?{}", e))
+}
+/// number of entries of one tree output, read back from the encoded value
+fn tree_entry_count(f: Fmt, v: &Value) -> Result<usize, String> {
+    match f {
+        Fmt::EdgeId | Fmt::Json => Ok(v.as_array().ok_or("not-array")?.len()),
+        Fmt::GeoJson => Ok(show_features(v)?.len()),
+        Fmt::Wkt => {
+            let s = v.as_str().ok_or("wkt-not-a-string")?;
+            Ok(geo::MultiLineString::<f64>::try_from_wkt_str(s).map_err(|e| format!("wkt:{}", e))?.0.len())
+        }
+        Fmt::Wkb => match wkb_geom(v)? {
+            geo::Geometry::MultiLineString(m) => Ok(m.0.len()),
+            other => Err(format!("wkb-not-multilinestring:{:?}", other)),
+        },
+    }
+}
+/// entries per tree of a response's `tree` value ("E" when the response is an error)
+fn tree_counts(f: Fmt, resp: &Value) -> String {
+    if resp.get("error").is_some() {
+        return "E".into();
+    }
+    let one = |v: &Value| tree_entry_count(f, v).map(|n| n.to_string()).unwrap_or_else(|e| format!("?{}", e));
+    match resp.get("tree") {
+        None => "?no-tree".into(),
+        Some(Value::Null) => "[]".into(),
+        Some(v) if single_tree(f, v) => format!("[{}]", one(v)),
+        Some(v) => show_list(v.as_array().unwrap(), one),
+    }
 }
 /// is the value at the tree key one tree output (true) or an array of tree outputs (false)?
 fn single_tree(f: Fmt, v: &Value) -> bool {
@@ -594,6 +638,21 @@ fn run_impl(c: &Case, dir: &Path, id: usize) -> String {
             r.unwrap_or_else(|_| "PANIC".to_string())
         }
     });
+    // every format asked for the trees alone: the number of entries per tree, format by format
+    let counts: Vec<String> = FORMATS
+        .iter()
+        .map(|f| {
+            let txt = match build_plugin(&Pcfg::Traversal(None, Some(*f)), &geom_file, &uuid_file) {
+                Err(_) => "E".to_string(),
+                Ok(p) => match catch(AssertUnwindSafe(|| apply_output_processing(&req, search_result(c), &app, &[p]))) {
+                    Ok(resp) => tree_counts(*f, &resp),
+                    Err(_) => "PANIC".to_string(),
+                },
+            };
+            format!("{}:{}", f.config_name(), txt)
+        })
+        .collect();
+    sections.push(format!("tcount {}", counts.join(" ")));
     let _ = std::fs::remove_file(&geom_file);
     let _ = std::fs::remove_file(&uuid_file);
     sections.join(" | ")
@@ -709,6 +768,12 @@ fn add_case(st: &mut Stream, mut c: Case, family: &str) {
                 if ids.len() < t.len() {
                     st.count("tree_has_shared_edge");
                 }
+                if t.iter().any(|b| number_of(b.tr.a) + number_of(b.tr.t) == 0.0) {
+                    st.count("tree_has_zero_cost_branch");
+                }
+                if t.iter().any(|b| [L_TINY, L_NEG_TINY, L_NEG_ZERO].iter().any(|l| b.tr.a == *l || b.tr.t == *l)) {
+                    st.count("tree_has_negzero_or_tiny_cost");
+                }
                 if t.len() >= 2 {
                     nontrivial = true;
                 }
@@ -778,7 +843,17 @@ fn gen_rows(r: &mut Rng, n: usize) -> Vec<Row> {
         .collect()
 }
 fn gen_trav(r: &mut Rng, e: usize) -> Trav {
-    Trav { e, a: r.range(0, 9), t: r.range(1, 99), s: vec![r.range(0, 999)] }
+    // mostly positive costs; about one in five edges has zero / negative-zero / tiny / cancelling costs
+    let (a, t) = match r.below(20) {
+        0 | 1 => (0, 0),
+        2 => (0, L_NEG_ZERO),
+        3 => (L_NEG_ZERO, L_NEG_ZERO),
+        4 => (0, L_TINY),
+        5 => (L_TINY, L_NEG_TINY),
+        6 => (3, -3),
+        _ => (r.range(0, 9), r.range(1, 99)),
+    };
+    Trav { e, a, t, s: vec![r.range(0, 999)] }
 }
 fn gen_uuids(r: &mut Rng, n: usize) -> Vec<String> {
     let sparse = r.chance(1, 2);
@@ -916,6 +991,29 @@ fn boundary_cases(st: &mut Stream, thorough: bool) {
     };
     for n in [0usize, 1, 2, 3, 10, 60] {
         add_case(st, base_case(ladder_rows(n.max(1)), vec![], vec![branches(n, &|i| i)]), "tree_sizes");
+    }
+    // branches without cost: the zero-cost root branch an edge-oriented tree-only query inserts for its
+    // origin edge, zero-length edges, negative zero, tiny and cancelling costs - still one entry each
+    let costs: [(i64, i64); 8] = [(0, 0), (0, L_NEG_ZERO), (L_NEG_ZERO, L_NEG_ZERO), (0, L_TINY), (L_TINY, L_NEG_TINY), (3, -3), (L_NEG_TINY, 0), (0, 1)];
+    for n in [1usize, 4] {
+        for zero_at in 0..n {
+            for (a, t) in costs.iter().take(if n == 1 { 8 } else { 3 }) {
+                let mut bs = branches(n, &|i| i % 3);
+                bs[zero_at].tr.a = *a;
+                bs[zero_at].tr.t = *t;
+                add_case(st, base_case(ladder_rows(3), vec![], vec![bs]), "tree_zero_cost_branch");
+            }
+        }
+    }
+    {
+        let mut bs = branches(6, &|i| i % 3);
+        for (i, b) in bs.iter_mut().enumerate() {
+            b.tr.a = costs[i].0;
+            b.tr.t = costs[i].1;
+        }
+        add_case(st, base_case(ladder_rows(3), vec![], vec![bs.clone(), branches(2, &|i| i)]), "tree_zero_cost_branch");
+        let route: Vec<Trav> = bs.iter().map(|b| b.tr.clone()).collect();
+        add_case(st, base_case(ladder_rows(3), vec![route], vec![bs]), "route_zero_cost_edges");
     }
     add_case(st, base_case(ladder_rows(3), vec![], vec![branches(7, &|i| i % 3)]), "tree_shared_edges");
     add_case(st, base_case(ladder_rows(3), vec![], vec![branches(2, &|_| 1)]), "tree_shared_edges");
